@@ -8,7 +8,7 @@ from fractions import Fraction as F
 from sa import term as T
 from sa.interp import SObj, SVar
 from sa.kernel import P, make_param, run_kernel
-from sa.load import AnalysisError, Repo, loc
+from sa.load import AnalysisError, Repo, loc, where_of
 from sa.report import Run
 from sa.term import Rat
 from sa.units import Unit
@@ -205,7 +205,8 @@ def run(tier: str) -> Run:
     # ---- R3: validation and repetition count, decided at witness points ------------------------------
     r3 = run.rule('R3', 'slit sets are accepted iff no slit is reversed and no two slits overlap on the disk (also across top-dead-centre); '
                         'frequency ratios are accepted iff integer or inverse integer to 1e-8; repetitions cover turns -1 .. n-1', 100)
-    efi = repo.func(MOD, '_check_edges')
+    cls = repo.cls(MOD, 'DiskChopper')
+    ewhere = where_of(repo, MOD, '_check_edges', 'DiskChopper.__post_init__', 'DiskChopper.__init__')
     grid = (0, 90, 180, 270, 360, 450) if tier != 'thorough' else (-30, 0, 90, 180, 270, 330, 360, 390, 450)
     bad = {}
     n_cfg = 0
@@ -225,9 +226,8 @@ def run(tier: str) -> Run:
                 wm = WitnessModel()
                 wi = WitnessInterp(repo, wm)
                 scale = F(1) if unit_name == 'deg' else F(355, 113) / 180
-                begin = wm.array(wi, [sym_scalar(wi, wm, f'b{k}', unit, F(v) * scale) for k, v in enumerate(b)], 'slit')
-                end = wm.array(wi, [sym_scalar(wi, wm, f'e{k}', unit, F(v) * scale) for k, v in enumerate(e)], 'slit')
-                kind, res = call(wi, efi, [begin, end])
+                # the refusal is a property of constructing the chopper (wherever the validation lives)
+                kind, res = construct_chopper(wi, wm, cls, tuple(F(v) * scale for v in b), tuple(F(v) * scale for v in e), freq=14, angle_unit=unit_name)
                 raised = kind == 'raise'
                 if raised != (verdict == 'reject'):
                     why = slit_reason(b, e)
@@ -235,18 +235,17 @@ def run(tier: str) -> Run:
                 else:
                     r3.ok('slit set')
     for inst in ('valid slit set', 'reversed slit', 'neighbouring slits overlap', 'overlap across top-dead-centre'):
-        r3.check(inst not in bad, inst, loc(efi), bad.get(inst, {'configurations': n_cfg}), key='slits:' + inst)
-    # validation is wired into construction
-    cls = repo.cls(MOD, 'DiskChopper')
+        r3.check(inst not in bad, inst, ewhere, bad.get(inst, {'configurations': n_cfg}), key='slits:' + inst)
+    # 0-d slits, and the same answers for more than two slits
     for label, b, e, want in (('valid', (0, 180), (60, 300), 'return'), ('overlapping', (0, 50), (90, 300), 'raise'), ('across top-dead-centre', (10, 180), (60, 380), 'raise'),
                              ('reversed 0-d slit', 90, 10, 'raise'), ('valid 0-d slit', 10, 90, 'return')):
         T.reset()
         wm = WitnessModel()
         wi = WitnessInterp(repo, wm)
         kind, res = construct_chopper(wi, wm, cls, b, e, freq=14)
-        r3.check(kind == want, f'construction validates [{label}]', loc(repo.func(MOD, 'DiskChopper.__post_init__')), {'outcome': (kind, res if kind == 'raise' else None)}, key='post-init')
+        r3.check(kind == want, f'construction validates [{label}]', ewhere, {'outcome': (kind, res if kind == 'raise' else None)}, key='post-init')
     # frequency ratio
-    sfi = repo.func(MOD, 'DiskChopper._source_phase_factor')
+    sfi = repo.func(MOD, 'DiskChopper.time_offset_open')  # the number of repetitions is the number of times listed per slit
     ratios = [(F(1, 4), 1), (F(1, 3), 1), (F(1, 2), 1), (F(1), 1), (F(2), 2), (F(3), 3), (F(8), 8), (F(1) + F(1, 10 ** 9), 1), (F(2) - F(1, 10 ** 9), 2),
               (F(3, 2), None), (F(5, 2), None), (F(3, 10), None), (F(2, 3), None), (F(1) + F(1, 10 ** 6), None), (F(2) - F(1, 10 ** 6), None), (F(1, 2) + F(1, 10 ** 6), None)]
     badq = {}
@@ -259,8 +258,10 @@ def run(tier: str) -> Run:
             if kind != 'return':
                 raise AnalysisError(f'cannot construct the reference chopper: {ch}')
             fp = sym_scalar(wi, wm, 'fp', Unit.named('Hz'), 14, positive=True)
-            kind, res = call(wi, sfi, [fp], bound=ch)
-            ok = (kind == 'raise' and res == 'ValueError') if want_n is None else (kind == 'return' and res == want_n)
+            kind, res = call(wi, sfi, [], {'pulse_frequency': fp}, bound=ch)
+            if kind == 'return':
+                res = len(items_of(res)) if items_of(res) is not None else res
+            ok = (kind == 'raise' and res == 'ValueError') if want_n is None else (kind == 'return' and res == want_n + 1)
             if ok:
                 r3.ok('ratio')
             else:
@@ -274,8 +275,10 @@ def run(tier: str) -> Run:
     wi = WitnessInterp(repo, wm)
     kind, ch = construct_chopper(wi, wm, cls, (0,), (60,), freq=28)
     fp = sym_scalar(wi, wm, 'fp', Unit.named('kHz'), F(14, 1000), positive=True)
-    kind, res = call(wi, sfi, [fp], bound=ch)
-    r3.check(kind == 'return' and res == 2, 'pulse frequency given in kHz', loc(sfi), {'outcome': (kind, res)}, key='ratio:unit')
+    kind, res = call(wi, sfi, [], {'pulse_frequency': fp}, bound=ch)
+    if kind == 'return' and items_of(res) is not None:
+        res = len(items_of(res))
+    r3.check(kind == 'return' and res == 3, 'pulse frequency given in kHz', loc(sfi), {'outcome': (kind, res), 'documented': 'turns -1, 0, 1 of the one slit'}, key='ratio:unit')
 
     # ---- R4: the openings reported are one per slit and turn, turns -1 .. n-1, paired consistently ---------------
     r4 = run.rule('R4', 'open/close times: every listed pair is an opening of one slit (open before close, paired slit by slit), none twice, none missing inside the span listed, which covers a pulse', 8)
